@@ -125,7 +125,16 @@ impl Snapshot {
                 self.0.insert(
                     key,
                     Node::Other {
-                        what: format!("{:?}", ft),
+                        what: {
+                            use std::os::unix::fs::FileTypeExt;
+                            if ft.is_fifo() {
+                                "fifo".to_string()
+                            } else if ft.is_socket() {
+                                "socket".to_string()
+                            } else {
+                                format!("{:?}", ft)
+                            }
+                        },
                     },
                 );
             }
@@ -149,6 +158,16 @@ impl Snapshot {
                 }
                 Node::Link { target } => {
                     std::os::unix::fs::symlink(OsStr::from_bytes(target), &p)?;
+                }
+                Node::Other { what } if what == "fifo" => {
+                    let c = std::ffi::CString::new(p.as_os_str().as_bytes()).unwrap();
+                    if unsafe { libc::mkfifo(c.as_ptr(), 0o644) } != 0 {
+                        return Err(io::Error::last_os_error());
+                    }
+                }
+                Node::Other { what } if what == "socket" => {
+                    // binding creates the socket file; it stays after the listener is dropped
+                    drop(std::os::unix::net::UnixListener::bind(&p)?);
                 }
                 Node::Other { what } => {
                     return Err(io::Error::other(format!("cannot materialise {what}")));
